@@ -192,6 +192,29 @@ func TestVerifWatcher(t *testing.T) {
 		}
 		cases = append(cases, c)
 	}
+	// environment self-test, independent of the code under test: a plain fsnotify watcher must see a file being created
+	{
+		dir, _ := os.MkdirTemp("", "verif-watch-selftest-")
+		ok := false
+		if w, err := fsnotify.NewWatcher(); err == nil {
+			if w.Add(dir) == nil {
+				os.WriteFile(filepath.Join(dir, "x.yml"), []byte("x"), 0o644)
+				select {
+				case <-w.Events:
+					ok = true
+				case <-time.After(3 * time.Second):
+				}
+			}
+			w.Close()
+		}
+		os.RemoveAll(dir)
+		if !ok {
+			for i := range cases {
+				out.Emit(wtObs{Case: i + 1, Slots: cases[i].Slots, Steps: cases[i].Steps, Events: []wtEvent{}, Listing: []uint64{}, Probe: "unavailable", Detail: "file notifications do not arrive in this environment"})
+			}
+			return
+		}
+	}
 	res := make([]wtObs, len(cases))
 	sem := make(chan struct{}, 12)
 	var wg sync.WaitGroup
